@@ -333,6 +333,36 @@ def explore_walk(ctx, depth, confs, nws, policies, runs):
                         ctx.distinct(("sched", depth, nw, apex, tuple((a, o) for a, _op, o in out.trace)))
 
 
+def explore_children_first_under_fault(ctx, depth, confs, nw, runs):
+    """The ordering sentence does not stop holding when a callback fails: a tile whose callback raised never completed, so no
+    tile above it may be started (how the failure is reported is C19's subject)."""
+    table = ops_table(ctx, depth, [(a, x) for a, x, g in confs])
+    for (acc, apex, generic), row in zip(confs, table):
+        ops = set(row["ops"])
+        cand = [p for p in row["ops"] if p != tuple(apex)]
+        for k in range(runs):
+            if not cand:
+                break
+            it = cand[ctx.rng.randrange(len(cand))]
+            log = []
+            pol = ["late-timeout", "random", "stall-w1-cb"][k % 3]
+            out = simrun.run(walk_main(depth, acc, apex, nw, log, faults={it}, generic=generic), simrun.POLICIES[pol](ctx.rng))
+            ctx.count()
+            done = set()
+            for tag, p, who in log:
+                if tag == "cb_end":
+                    done.add(p)
+                elif tag == "cb_start":
+                    early = [c for c in kids(p) if c in ops and c not in done]
+                    if early:
+                        ctx.violation("C01:walk-parallel:children-first-after-failure",
+                                      "parallel walk (%d workers, %s) depth %d: the callback of %s raised, yet the callback for %s started although its child %s never completed"
+                                      % (nw, pol, depth, it, p, early[0]),
+                                      {"depth": depth, "accept": sorted(acc), "apex": apex, "fault": it, "policy": pol, "trace_tail": [list(map(str, t)) for t in out.trace[-40:]]})
+                        break
+            ctx.distinct(("fault-order", depth, it, tuple((a, o) for a, _op, o in out.trace)))
+
+
 def explore_history(ctx, acc, apex, depths, nw=2):
     """One Pyramid OBJECT walked repeatedly while its (documented as changeable) depth attribute is changed in between, the
     counts being asked for in between as a user would: every walk must match the operation set TLC gives for the depth of
@@ -487,6 +517,7 @@ def run(ctx):
     explore_walk(ctx, 3, [(acc3, ROOT, False), (acc3, (1, 1, 1), False), (with_kids(l1, 3), (2, 1, 2), True)], [2, 4],
                  ["random", "starve-feeder", "stall-w1-cb"], 2 if q else 10)
     explore_walk(ctx, 1, [(frozenset(l1[:2]), ROOT, False), (frozenset(l1), (1, 0, 0), False)], [2], ["random"], 2)
+    explore_children_first_under_fault(ctx, 2, [(full2, ROOT, True), (fam[3], ROOT, False)], 2, 3 if q else 12)
     # (3b) histories on one object
     explore_history(ctx, acc3, (2, 0, 1), [2, 3, 2, 3])
     explore_history(ctx, acc3, ROOT, [1, 3, 2])
